@@ -211,63 +211,64 @@ Qed.
 
 (** ** almost_swapped *)
 Definition assign1 (v : var) (e : expr) : stmt := SAssign (VsCons v VsNil) (EsCons e EsNil).
-Definition vtext (v : var) : string := text (tx_var v).
-Definition etext (e : expr) : string := text (tx_expr e).
 
 Lemma swap_loop_sound ss : forall last n0 n1,
   In (n0, n1) (swap_loop last ss) ->
-  (last = Some (n0, n1) /\ exists v e r, ss = assign1 v e :: r /\ etext e = n0 /\ vtext v = n1 /\ se_var v = false) \/
+  (exists l0 l1, last = Some (l0, l1) /\ n0 = text l0 /\ n1 = text l1 /\
+     exists v e r, ss = assign1 v e :: r /\ tx_expr e = l0 /\ tx_var v = l1 /\ se_var v = false) \/
   (exists pre v1 e1 v2 e2 post, ss = pre ++ assign1 v1 e1 :: assign1 v2 e2 :: post /\
-     n0 = vtext v1 /\ n1 = etext e1 /\ etext e2 = vtext v1 /\ vtext v2 = etext e1 /\ se_var v1 = false /\ se_var v2 = false).
+     n0 = text (tx_var v1) /\ n1 = text (tx_expr e1) /\ tx_expr e2 = tx_var v1 /\ tx_var v2 = tx_expr e1 /\
+     se_var v1 = false /\ se_var v2 = false).
 Proof.
   induction ss as [|s r IH]; intros last n0 n1; [intros []|].
   assert (Hother : In (n0, n1) (swap_loop None r) ->
     exists pre v1 e1 v2 e2 post, s :: r = pre ++ assign1 v1 e1 :: assign1 v2 e2 :: post /\
-     n0 = vtext v1 /\ n1 = etext e1 /\ etext e2 = vtext v1 /\ vtext v2 = etext e1 /\ se_var v1 = false /\ se_var v2 = false).
-  { intros H. destruct (IH None n0 n1 H) as [[Hl _]|(pre & v1 & e1 & v2 & e2 & post & -> & Hr)]; [discriminate|].
+     n0 = text (tx_var v1) /\ n1 = text (tx_expr e1) /\ tx_expr e2 = tx_var v1 /\ tx_var v2 = tx_expr e1 /\
+     se_var v1 = false /\ se_var v2 = false).
+  { intros H. destruct (IH None n0 n1 H) as [(l0 & l1 & Hl & _)|(pre & v1 & e1 & v2 & e2 & post & -> & Hr)]; [discriminate|].
     exists (s :: pre), v1, e1, v2, e2, post. split; [reflexivity|exact Hr]. }
   destruct s as [vs es| | | | | | | | | |]; try (cbn [swap_loop]; intros H; right; exact (Hother H)).
   destruct vs as [|v [|? ?]]; try (cbn [swap_loop]; intros H; right; exact (Hother H)).
   destruct es as [|e [|? ?]]; try (cbn [swap_loop]; intros H; right; exact (Hother H)).
   cbn [swap_loop]. destruct (se_var v) eqn:Ese; [intros H; right; exact (Hother H)|].
-  fold (vtext v) (etext e).
-  assert (Hnext : In (n0, n1) (swap_loop (Some (vtext v, etext e)) r) ->
+  assert (Hnext : In (n0, n1) (swap_loop (Some (tx_var v, tx_expr e)) r) ->
     exists pre v1 e1 v2 e2 post, assign1 v e :: r = pre ++ assign1 v1 e1 :: assign1 v2 e2 :: post /\
-     n0 = vtext v1 /\ n1 = etext e1 /\ etext e2 = vtext v1 /\ vtext v2 = etext e1 /\ se_var v1 = false /\ se_var v2 = false).
-  { intros H. destruct (IH _ n0 n1 H) as [[[= <- <-] (v2 & e2 & r2 & -> & He & Hv & Hs)]|(pre & v1 & e1 & v2 & e2 & post & -> & Hr)].
+     n0 = text (tx_var v1) /\ n1 = text (tx_expr e1) /\ tx_expr e2 = tx_var v1 /\ tx_var v2 = tx_expr e1 /\
+     se_var v1 = false /\ se_var v2 = false).
+  { intros H. destruct (IH _ n0 n1 H) as [(l0 & l1 & [= <- <-] & -> & -> & v2 & e2 & r2 & -> & He & Hv & Hs)|(pre & v1 & e1 & v2 & e2 & post & -> & Hr)].
     - exists [], v, e, v2, e2, r2. repeat split; auto.
     - exists (assign1 v e :: pre), v1, e1, v2, e2, post. split; [reflexivity|exact Hr]. }
   destruct last as [[m0 m1]|].
-  - destruct (str_eqb m0 (etext e) && str_eqb m1 (vtext v)) eqn:Em.
+  - destruct (strs_eqb m0 (tx_expr e) && strs_eqb m1 (tx_var v)) eqn:Em.
     + intros [[= <- <-]|H].
-      * apply andb_true_iff in Em as [E0 E1]. apply str_eqb_eq in E0, E1. left. split; [reflexivity|].
+      * apply andb_true_iff in Em as [E0 E1]. apply strs_eqb_eq in E0, E1. left. exists m0, m1. repeat split; auto.
         exists v, e, r. repeat split; auto.
       * right. exact (Hother H).
     + intros H. right. exact (Hnext H).
   - intros H. right. exact (Hnext H).
 Qed.
 
-(** every report is a pair of adjacent single assignments `v1 = e1` `v2 = e2` of one block with the text
-    of e2 that of v1 and the text of v2 that of e1 *)
+(** every report is a pair of adjacent single assignments `v1 = e1` `v2 = e2` of one block with the tokens
+    of e2 those of v1 and the tokens of v2 those of e1 (the report shows the texts of v1 and e1) *)
 Theorem swapped_sound b n0 n1 :
   In (n0, n1) (swaps_of_block b) ->
   exists ss l rng pre v1 e1 v2 e2 post, b = Block ss l rng /\
     stmts_list ss = pre ++ assign1 v1 e1 :: assign1 v2 e2 :: post /\
-    n0 = vtext v1 /\ n1 = etext e1 /\ etext e2 = vtext v1 /\ vtext v2 = etext e1.
+    n0 = text (tx_var v1) /\ n1 = text (tx_expr e1) /\ tx_expr e2 = tx_var v1 /\ tx_var v2 = tx_expr e1.
 Proof.
   destruct b as [ss l rng]. cbn [swaps_of_block]. intros H.
-  destruct (swap_loop_sound _ _ _ _ H) as [[Hl _]|(pre & v1 & e1 & v2 & e2 & post & Hs & H0 & H1 & H2 & H3 & _)]; [discriminate|].
+  destruct (swap_loop_sound _ _ _ _ H) as [(l0 & l1 & Hl & _)|(pre & v1 & e1 & v2 & e2 & post & Hs & H0 & H1 & H2 & H3 & _)]; [discriminate|].
   exists ss, l, rng, pre, v1, e1, v2, e2, post. repeat split; assumption.
 Qed.
 
 Lemma swap_loop_pair last v1 e1 v2 e2 post :
-  se_var v1 = false -> se_var v2 = false -> etext e2 = vtext v1 -> vtext v2 = etext e1 ->
+  se_var v1 = false -> se_var v2 = false -> tx_expr e2 = tx_var v1 -> tx_var v2 = tx_expr e1 ->
   swap_loop last (assign1 v1 e1 :: assign1 v2 e2 :: post) <> [].
 Proof.
-  intros S1 S2 H2 H3. unfold assign1. cbn [swap_loop]. rewrite S1, S2. fold (vtext v1) (etext e1) (vtext v2) (etext e2).
-  assert (Hm : str_eqb (vtext v1) (etext e2) && str_eqb (etext e1) (vtext v2) = true).
-  { apply andb_true_iff. split; apply str_eqb_eq; congruence. }
-  destruct last as [[m0 m1]|]; [destruct (str_eqb m0 _ && _); [intros [=]|]|]; rewrite Hm; intros [=].
+  intros S1 S2 H2 H3. unfold assign1. cbn [swap_loop]. rewrite S1, S2.
+  assert (Hm : strs_eqb (tx_var v1) (tx_expr e2) && strs_eqb (tx_expr e1) (tx_var v2) = true).
+  { apply andb_true_iff. split; apply strs_eqb_eq; congruence. }
+  destruct last as [[m0 m1]|]; [destruct (strs_eqb m0 _ && _); [intros [=]|]|]; rewrite Hm; intros [=].
 Qed.
 
 Lemma swap_loop_skip s r last : swap_loop last (s :: r) <> [] \/ exists last', swap_loop last (s :: r) = swap_loop last' r.
@@ -280,7 +281,7 @@ Proof.
 Qed.
 
 Lemma swap_loop_complete pre : forall last v1 e1 v2 e2 post,
-  se_var v1 = false -> se_var v2 = false -> etext e2 = vtext v1 -> vtext v2 = etext e1 ->
+  se_var v1 = false -> se_var v2 = false -> tx_expr e2 = tx_var v1 -> tx_var v2 = tx_expr e1 ->
   swap_loop last (pre ++ assign1 v1 e1 :: assign1 v2 e2 :: post) <> [].
 Proof.
   induction pre as [|s r IH]; intros last v1 e1 v2 e2 post S1 S2 H2 H3; cbn [app].
@@ -293,7 +294,7 @@ Qed.
 Theorem swapped_canonical chunk ss l rng pre v1 e1 v2 e2 post :
   In (Block ss l rng) (all_blocks chunk) ->
   stmts_list ss = pre ++ assign1 v1 e1 :: assign1 v2 e2 :: post ->
-  se_var v1 = false -> se_var v2 = false -> etext e2 = vtext v1 -> vtext v2 = etext e1 ->
+  se_var v1 = false -> se_var v2 = false -> tx_expr e2 = tx_var v1 -> tx_var v2 = tx_expr e1 ->
   (1 <= n_swapped (same_lint_counts chunk))%nat.
 Proof.
   intros Hin Hs S1 S2 H2 H3. unfold same_lint_counts, n_swapped.
